@@ -7,11 +7,15 @@ Oracle (the property itself, independent of the model of the C code): generated 
 through vbi_decode; after every terminated transmission the fetched page must equal the transmitted
 characters mapped through L1Spec with the *standard's* rules (`L1Spec.page .std`, evaluated by the Lean
 driver op `specstd`), with the transmitted page/subpage number and FLOF links, and exactly one
-TTX_PAGE event per transmission; a wildcard subpage fetch returns the subpage just received."""
+TTX_PAGE event per transmission; a wildcard subpage fetch returns the subpage just received.
+Round 5: ops `fmtx` / `specx` (page with `x28_designations` and its own extension record: the selection
+`x28_designations & 0x11` of teletext.c) and `fetchx` (fetch of a page that received X/28/0 format 1 packets -
+sent through vbi_decode by the network generator with C03's independent encoder lib/ttx_util.py)."""
 import os, subprocess, sys
 sys.path.insert(0, os.path.join(os.path.dirname(os.path.abspath(__file__)), "..", "lib"))
 import verif
 import fmt_util as F
+import ttx_util as TU     # C03's independent sender-side encoders (Hamming 24/18 triplets, X/28 format 1); imported, not edited
 
 G0_SETS = [1, 3, 4, 5, 7, 9, 11]
 
@@ -28,7 +32,8 @@ class C02(verif.Spec):
     prop = "C02"
     comp = "fmt"
     lean_modules = ["ZvbiModel.Props.C02", "ZvbiModel.Props.C02Roundtrip", "ZvbiModel.Props.C02Interleave",
-                    "ZvbiModel.Props.C02Serial"]
+                    "ZvbiModel.Props.C02Serial", "ZvbiModel.Props.C02Chain", "ZvbiModel.Props.C02Std",
+                    "ZvbiModel.Props.C02Flof", "ZvbiModel.Props.C02Hdr", "ZvbiModel.Props.C02Sender"]
     harness = "fmt_harness"
     harness_link_lib = True
     timeout_per_case = 10.0
@@ -40,12 +45,20 @@ class C02(verif.Spec):
                     "network; the four interferences E1-E4 it excludes are proved real and replayed on the C code) and from every "
                     "reachable state for one magazine stream (single_page_roundtrip_reachable; shape invariants reachable_shape); "
                     "serial mode is proved for one transmission terminated by a header of any magazine (Props/C02Serial: "
-                    "page_roundtrip_serial, page_roundtrip_serial_fetch); whole cycles of pages are an open statement covered by the network oracle; "
+                    "page_roundtrip_serial, page_roundtrip_serial_fetch); whole cycles of transmissions of one magazine from a fresh "
+                    "decoder, with packets of the other seven magazines interleaved, are proved in Props/C02Chain "
+                    "(page_roundtrip_cycle, page_roundtrip_chain; the TextPage hypothesis is discharged by the invariant "
+                    "text_only_invariant; sender side with the concrete Hamming 8/4 encoder: Props/C02Sender page_roundtrip_sender) - "
+                    "not proved: cycles in serial mode, own X/26 / X/27 / X/28 packets inside a transmission of a cycle; "
                     "Level 2.5/3.5 enhancement, X/26, TOP navigation, zap_links are not modelled.")
     open_statements = ["Zvbi.Props.C02.format_refines_L1Spec_full (false on the unchanged tree: see ..._counterexample)",
-                       "Zvbi.Props.C02.page_roundtrip_full / Zvbi.Props.C02Serial.page_roundtrip_chain_full (a whole cycle of transmissions of one magazine from a fresh decoder: the step is C02Interleave.single_page_roundtrip_from_init, which needs no shape or channel-switch hypothesis any more; missing: the invariant 'only text pages announced' that discharges the step's TextPage hypothesis along the run, and the assembly of the per-page look-up claims with C02Serial.stored_page_survives_put; see NOTES/C02.md)"]
+                       "Zvbi.Props.C02.page_roundtrip_full (round-1 wording of the sender-side statement; SUPERSEDED: the receiver-side statement "
+                       "C02Serial.page_roundtrip_chain_full is now the theorem C02Chain.page_roundtrip_chain, and the sender-side form with a concrete "
+                       "Hamming 8/4 / odd-parity encoder is the theorem C02Sender.page_roundtrip_sender. The round-1 def itself stays unproved: its "
+                       "`WellFormed.header_ok` does not say that the three digits at `off` ARE the page number, so as worded it does not follow; it also "
+                       "asks for the exact sub-code look-up of the last page only, which page_roundtrip_cycle clause 3 gives for every page)"]
     assumptions = ["consistent page header across the network (header columns 8-31 equal except the page number)",
-                   "regular frame timestamps (40 ms)", "no X/26, X/28, M/29 packets; no MOT/MIP/TOP pages",
+                   "regular frame timestamps (40 ms)", "no X/26, M/29 packets (X/28/0 format 1 with page function LOP is sent); no MOT/MIP/TOP pages",
                    "page numbers decimal 100-899, subpages 00-79"]
     trusted_base = ["translate/gen_fmt.py (character tables + enum values through a compiled probe; cross-checked by op `tu`)",
                     "harness/fmt_harness.c + lean/Driver/Fmt.lean (correspondence)",
@@ -62,7 +75,7 @@ class C02(verif.Spec):
         todo = [a for a in dict.fromkeys(argstrs) if a not in self._std]
         if not todo:
             return
-        inp = "".join("specstd %s\n" % a for a in todo)
+        inp = "".join("%s %s\n" % ("specstdx" if len(a.split()) == 12 else "specstd", a) for a in todo)
         p = subprocess.run([verif.model_exe(), "fmt"], input=inp.encode(), stdout=subprocess.PIPE, timeout=1800)
         outs = [l for l in p.stdout.decode().split("\n") if l]
         for a, o in zip(todo, outs):
@@ -78,7 +91,8 @@ class C02(verif.Spec):
         lvl = rng.choice([1, 2])
         region = rng.choice([0, 0, 0, 8, 16, 24, 32, 33, 36, 48, 55, 64, 71, 85, 87, rng.randrange(88)])
         pgno = rng.choice([0x100, 0x899, 0x8FF, 0x1AB, rng.randrange(0x100, 0x900)])
-        subno = rng.choice([0, 1, 0x79, 0x3F7F, rng.randrange(0x4000) & 0x3F7F])
+        # (0x80, 0xFF, 0x1A5: bit 7 set - never a transmitted sub-code, but the header shows `subno & 0xff`: mutant N2)
+        subno = rng.choice([0, 1, 0x79, 0x3F7F, rng.randrange(0x4000) & 0x3F7F, 0x80, 0xFF, 0x1A5, rng.randrange(0x3F80)])
         flags = subno
         for bit, pr in ((0x80, .2), (0x4000, .15), (0x8000, .15), (0x10000, .15), (0x20000, .2), (0x40000, .1),
                         (0x80000, .1), (0x100000, .4)):
@@ -97,6 +111,16 @@ class C02(verif.Spec):
         if rng.random() < 0.05:
             raw = [rng.randrange(256) for _ in range(1000)]
         return "%d %d 0x%x 0x%x 0x%x %d %s" % (lvl, region, pgno, subno, flags, nat, F.hx(raw))
+
+    def gen_directx(self, rng):
+        """a page with x28_designations and its own extension record (what X/28/0 format 1 / X/28/4 leave in the cache):
+        lvl region pgno subno flags national x28 cs0 cs1 fgclut bgclut hex"""
+        w = self.gen_direct(rng).split()
+        x28 = rng.choice([0, 1, 0x10, 0x11, 0x02, 0x0E, 0x1F, 0x12, 0x01, 0x10, rng.randrange(0x20), rng.randrange(0x10000)])
+        cs = lambda: rng.choice([0, 8, 16, 24, 32, 33, 36, 37, 0x24, 0x25, 0x37, 0x40, 0x47, 0x55, 0x57, rng.randrange(128), rng.randrange(256)])
+        fgc = rng.choice([0, 0, 8, 16])
+        bgc = rng.choice([0, 0, 8, 16, 24])
+        return " ".join(w[:6] + ["0x%x" % x28, str(cs()), str(cs()), str(fgc), str(bgc), w[6]])
 
     def nav_expect(self, s, cells):
         nav = [(0, 0)] * 6
@@ -139,12 +163,14 @@ class C02(verif.Spec):
         shared = rng.sample(decimal, rng.choice([2, 2, 3]))
         for m in mags:
             pages = shared if carousel else rng.sample(decimal, 2 if single else rng.choice([2, 3, 4]))
-            pools[m] = [(pg, rng.choice([0, 0, 0, 0, 2] if carousel else [0, 0, 3]), rng.randrange(8)) for pg in pages]   # (page, nsub, national)
+            pools[m] = [(pg, rng.choice([0, 0, 0, 0, 2] if carousel else [0, 0, 3, 9]), rng.randrange(8)) for pg in pages]   # (page, nsub, national)
         c4p = rng.choice([0.0, 0.1, 0.2]) if carousel else (0.5 if single else 0.3)
         def make_tx(m, last_page, want=None):
             cand = [x for x in pools[m] if x[0] != last_page and (want is None or x[0] == want)]
             page, nsub, nat = rng.choice(cand)
-            subno = 0 if nsub == 0 else rng.randrange(1, nsub + 1)
+            # nsub 9: rotating subpages whose sub-codes share the low digit (0x02 / 0x12, 0x01 / 0x11 / 0x21): they must be
+            # kept apart in the cache (C02Chain.page_roundtrip_cycle clause 4; cache.c mask mutant N5)
+            subno = 0 if nsub == 0 else (rng.choice([1, 2, 0x11, 0x12, 0x21]) if nsub == 9 else rng.randrange(1, nsub + 1))
             pgno = (m if m else 8) * 256 + page
             text = list(letters)
             digs = "%03x" % pgno
@@ -175,7 +201,13 @@ class C02(verif.Spec):
                     lp = 0xFF if rng.random() < 0.25 else rng.randrange(10) * 16 + rng.randrange(10)
                     links.append((lm * 256 + lp, rng.choice([0x3F7F, 0, 1, rng.randrange(0x4000) & 0x3F7F])))
                 x27 = (links, rng.choice([0x8, 0xF, 0x0, 0x7]))
-            return F.Transmission(m, page, subno, c4, c5, c6, ctl, text32, rows, which, x27)
+            t = F.Transmission(m, page, subno, c4, c5, c6, ctl, text32, rows, which, x27)
+            if not single and not inter and rng.random() < 0.2:
+                # X/28/0 format 1 (page function LOP, parity coding): the page's own character set designation and
+                # colour table re-mapping; applies at Level 1 / 1.5 too (teletext.c `x28_designations & 0x11`)
+                t.x28 = (rng.choice([0, 8, 16, 0x20, 0x21, 0x24, 0x25, 0x37, 0x40, 0x47, 0x55, 0x57, rng.randrange(128)]),
+                         rng.choice([0, 0, 0x24, 0x37, rng.randrange(128)]), rng.randrange(8))
+            return t
         streams = {m: [] for m in mags}
         plan = None                                  # serial carousel: the global order of transmissions
         if carousel:
@@ -215,6 +247,8 @@ class C02(verif.Spec):
             body = [("row", t, r) for r in t.row_order]
             if t.x27 is not None:
                 body.insert(rng.randrange(len(body) + 1), ("x27", t))
+            if t.x28 is not None:
+                body.insert(rng.randrange(len(body) + 1), ("x28", t))
             if single and t.row_order and rng.random() < 0.6:
                 # a row sent twice: the later packet wins (mergeRows); the earlier one carries other bytes
                 r = rng.choice(t.row_order)
@@ -283,6 +317,10 @@ class C02(verif.Spec):
             elif u[0] == "x27":
                 t = u[1]
                 lines.append("pkt " + F.hx(F.x27_packet(t.mag, t.x27[0], t.x27[1])))
+            elif u[0] == "x28":
+                t = u[1]
+                lines.append("pkt " + F.hx(TU.x28_format1(t.mag if t.mag else 8, 28, 0, function=0, coding=0, cs0=t.x28[0], cs1=t.x28[1],
+                                                        remap=t.x28[2])))
             else:
                 m = u[1]
                 text32 = [F.par(0x20)] * 32
@@ -299,13 +337,17 @@ class C02(verif.Spec):
         lines.append("fetch 1 %d 0x%x any none" % (region, rng.choice(absent) if all(p[0] != 0x98 for m in mags for p in pools[m]) else 0x8FE))
         return lines, need
 
+    def ext_args(self, s):
+        return "" if s.x28 is None else "0x%x %d %d %d %d " % s.x28
+
     def fetch_args(self, lvl, region, s):
-        return "%d %d 0x%x 0x%x 0x%x %d %s" % (lvl, region, s.pgno, s.subno, s.flags, s.national, F.hx(s.raw1000()))
+        return "%d %d 0x%x 0x%x 0x%x %d %s%s" % (lvl, region, s.pgno, s.subno, s.flags, s.national, self.ext_args(s), F.hx(s.raw1000()))
 
     def fetch_line(self, lvl, region, pgno, sn, s):
         links = " ".join("0x%x:0x%x" % (l[0] & 0xFFF, l[1] & 0xFFFF) for l in s.links)
-        return "fetch %d %d 0x%x %s 0x%x 0x%x 0x%x %d %s %d %d %s" % (
-            lvl, region, pgno, sn, s.pgno, s.subno, s.flags, s.national, F.hx(s.raw1000()), s.have_flof, s.has24, links)
+        return "%s %d %d 0x%x %s 0x%x 0x%x 0x%x %d %s%s %d %d %s" % (
+            "fetch" if s.x28 is None else "fetchx", lvl, region, pgno, sn, s.pgno, s.subno, s.flags, s.national, self.ext_args(s),
+            F.hx(s.raw1000()), s.have_flof, s.has24, links)
 
     def gen_cases(self, rng, tier):
         quick = tier == "quick"
@@ -329,6 +371,11 @@ class C02(verif.Spec):
             a = self.gen_direct(rng)
             cases.append(["fmt " + a, "spec " + a])
             need.append(a)
+        # 2b. pages with X/28 designations and their own extension record (selection `x28_designations & 0x11`)
+        for _ in range(80 if quick else 1000):
+            a = self.gen_directx(rng)
+            cases.append(["fmtx " + a, "specx " + a])
+            need.append(a)
         # 3. networks through the real decoder
         for _ in range(45 if quick else 400):
             lines, nd = self.gen_net(rng, tier)
@@ -350,7 +397,10 @@ class C02(verif.Spec):
         cases.append(["fmt 1 0 0x100 0 0 0 00", "fmt 3 0 0x100 0 0 0 " + "20" * 1000, "fmt 1 88 0x100 0 0 0 " + "20" * 1000,
                       "fmt 1 0 0x99 0 0 0 " + "20" * 1000, "fmt 1 0 0x100 0 0 8 " + "20" * 1000, "spec 1 0 0x100 0 0 0 zz",
                       "pkt 00", "pkt " + "zz" * 42, "bogus", "fetch 1 0 0x100 any none", "fetch 1 0 0x100", "evcount 1 2",
-                      "fetch 1 0 0x100 0 none", "events -"])
+                      "fetch 1 0 0x100 0 none", "events -",
+                      "fmtx 1 0 0x100 0 0 0 1 0 0 0 0 00", "fmtx 1 0 0x100 0 0 0 1 256 0 0 0 " + "20" * 1000,
+                      "fmtx 1 0 0x100 0 0 0 1 0 0 33 0 " + "20" * 1000, "fmtx 1 0 0x100 0 0 0 1 0 0 0 " + "20" * 1000,
+                      "specx 1 0 0x100 0 0 0 x 0 0 0 0 " + "20" * 1000, "fmtx 1 0 0x100 0 0 0 0x11 36 0 8 24 " + "20" * 1000])
         self.specstd(need)
         return cases
 
@@ -423,14 +473,14 @@ class C02(verif.Spec):
         held = None
         for idx, (op, o) in enumerate(zip(case, out)):
             w = op.split()
-            if w[0] == "fmt" and len(w) == 8 and o.startswith("ok ") and o != "ok false":
+            if ((w[0] == "fmt" and len(w) == 8) or (w[0] == "fmtx" and len(w) == 13)) and o.startswith("ok ") and o != "ok false":
                 want = self.std_cells(" ".join(w[1:]))
                 if want is None:
                     continue
                 d = self.compare_cells(o[3:], want)
                 if d and d[0] == "held": held = held or d[1]
                 elif d: return "format differs from L1Spec: " + d[1]
-            elif w[0] == "fmt" and len(w) == 8 and o == "ok false":
+            elif ((w[0] == "fmt" and len(w) == 8) or (w[0] == "fmtx" and len(w) == 13)) and o == "ok false":
                 return "vbi_format_vt_page refused a LOP page"
             elif w[0] == "evcount" and len(w) == 4 and o.startswith("ok"):
                 if o != "ok " + w[3]:
@@ -444,7 +494,8 @@ class C02(verif.Spec):
             elif w[0] == "fetch" and len(w) == 6:
                 if o != "ok none":
                     return "fetch of a page never sent succeeded"
-            elif w[0] == "fetch" and len(w) == 18:
+            elif (w[0] == "fetch" and len(w) == 18) or (w[0] == "fetchx" and len(w) == 23):
+                x = 5 if w[0] == "fetchx" else 0            # fetchx: five more tokens (the page's X/28 record) before the hex
                 if o == "ok none":
                     return "fetch: terminated page %s/%s is not in the cache" % (w[5], w[6])
                 g = o.split()
@@ -453,16 +504,16 @@ class C02(verif.Spec):
                 if int(g[1], 16) != int(w[5], 0) or int(g[2], 16) != int(w[6], 0):
                     what = "wildcard subpage fetch did not return the subpage just received" if w[4] == "any" else "wrong page returned"
                     return "fetch: %s (%s/%s instead of %s/%s)" % (what, g[1], g[2], w[5], w[6])
-                args = " ".join([w[1], w[2]] + w[5:10])
+                args = " ".join([w[1], w[2]] + w[5:10 + x])
                 want = self.std_cells(args)
                 if want is None:
                     return "oracle: no spec value"
                 d = self.compare_cells(g[3], want)
                 if d and d[0] == "held": held = held or d[1]
-                elif d: return "fetched page differs from the transmitted one: " + d[1]
+                elif d: return "fetched page differs from the transmitted one%s: %s" % (" (page with X/28/0)" if x else "", d[1])
                 s = F.Stored()
-                s.have_flof, s.has24 = int(w[10]), int(w[11])
-                s.links = [tuple(int(x, 0) for x in l.split(":")) for l in w[12:18]]
+                s.have_flof, s.has24 = int(w[10 + x]), int(w[11 + x])
+                s.links = [tuple(int(v, 0) for v in l.split(":")) for l in w[12 + x:18 + x]]
                 nav = self.nav_expect(s, split_cells(want))
                 if " ".join(g[4:10]) != nav:
                     return "FLOF links: fetched %s expected %s" % (" ".join(g[4:10]), nav)
